@@ -69,7 +69,7 @@ def write_trace_cfg(wd, props, level_b=True):
 
 def judge(prop, trie_path, wd, level_b=True, workers=8):
     cfg = write_trace_cfg(wd, {prop}, level_b)
-    res = vlib.tlc("Trace_Endpoint", cfg, wd, workers=workers, xmx="12g", timeout=1800, env={"TRIE": trie_path}, xss="1g", deque=True)
+    res = vlib.tlc("Trace_Endpoint", cfg, wd, workers=workers, xmx="8g", timeout=1800, env={"TRIE": trie_path}, xss="1g", deque=True)
     txt = open(res["out"], errors="replace").read()
     if not res["completed"]:
         import sys
@@ -133,7 +133,7 @@ def brief_path(nodes, nid, maxlen=14):
 
 
 def run(prop, tier, quick_slices, thorough_slices, nontrivial, drive_profile="mixed", replay=None,
-        quick_edges=12000, thorough_edges=150000, assumptions=None, extra_rule=""):
+        quick_edges=30000, thorough_edges=200000, assumptions=None, extra_rule=""):
     """nontrivial(node) -> bool : the property's antecedent fired at this node (for distinct_nontrivial)."""
     t0 = time.time()
     wd = vlib.workdir(prop)
@@ -161,39 +161,79 @@ def run(prop, tier, quick_slices, thorough_slices, nontrivial, drive_profile="mi
     edge_files = []
     per_slice = {}
     rng = random.Random(vlib.seed())
+    res = vlib.tlc_many("MC_Endpoint", ["MC_%s.cfg" % n for n in names], wd, parallel=2 if thorough else 4,
+                        workers=8 if thorough else 4, xmx="24g" if thorough else "8g", timeout=3000 if thorough else 600)
+    mcs = {name: res["MC_%s.cfg" % name] for name in names}
+    # replay budget: shared between the slices in proportion to their size (small slices are replayed completely)
+    all_edges = sum(max(1, m["generated"]) for m in mcs.values())
     for name in names:
-        mc = vlib.tlc("MC_Endpoint", "MC_%s.cfg" % name, wd, workers=16 if thorough else 8, xmx="24g" if thorough else "8g",
-                      timeout=3000 if thorough else 600)
+        mc = mcs[name]
         # TLC writes one output per (module, cfg) pair
         if not mc["completed"] or mc["errors"]:
             txt = open(mc["out"], errors="replace").read()
             sv = [l[:600] for l in txt.splitlines() if l.startswith('<<"SPECVIOL"')][:2]
             raise vlib.ToolError("slice %s: the specification violates its own properties/invariants: %s %s" % (name, mc["errors"][:2], sv))
         ef = os.path.join(wd, "edges_%s.ndjson" % name)
-        share = max(500, limit // len(names))
-        total, kept = vlib.edges_to_file(mc["out"], ef, limit=share, rng_seed=rng.randrange(1 << 30))
+        share = max(2500, int(limit * max(1, mc["generated"]) / all_edges))
+        total, kept = vlib.edges_to_file(mc["out"], ef, limit=share, rng_seed=rng.randrange(1 << 30), maximal=True)
+        covered = vlib.edges_to_file.covered
         os.remove(mc["out"])
         if total == 0:
             raise vlib.ToolError("slice %s produced no transitions" % name)
         states += mc["distinct"]
         transitions += total
-        per_slice[name] = {"states": mc["distinct"], "transitions": total, "replayed": kept}
+        per_slice[name] = {"states": mc["distinct"], "transitions": total, "replayed": covered, "schedules": kept}
         edge_files.append(ef)
 
-    args = ["run"]
-    for ef in edge_files:
-        args += ["--edges", ef]
-    if prop == "C11":
-        args += ["--probe"]
-    args += ["--drive", "400" if thorough else "40", "--seed", str(vlib.seed()), "--steps", "120" if thorough else "60",
-             "--profile", drive_profile, "--out", trie]
-    hs = vlib.harness(binary, args, timeout=3000)
-    if hs.get("nondeterministic"):
-        raise vlib.ToolError("the library behaved non-deterministically: %s" % hs["nondeterministic"][:1])
-    viols, drifts, tres = judge(prop, trie, wd, workers=16 if thorough else 8)
-    nodes = vlib.load_trie(trie)
-    groups = group(prop, nodes, viols)
-    code, nv, nk = vlib.verdict(prop, groups, make_replay_fn(nodes))
+    # one harness process + one Trace_Endpoint run per slice (and one for the random histories), side by side:
+    # every TLC worker deserialises the whole trie it walks, so several small tries are cheaper than one big one
+    drive_n = "400" if thorough else "40"
+    parts = [(os.path.basename(ef)[6:-7], ["--edges", ef]) for ef in edge_files]
+    parts.append(("random", (["--probe"] if prop == "C11" else []) +
+                  ["--drive", drive_n, "--seed", str(vlib.seed()), "--steps", "120" if thorough else "60", "--profile", drive_profile]))
+    t_mc = time.time() - t0
+
+    def do_part(item):
+        pname, pargs = item
+        pwd = os.path.join(wd, "part_" + pname)
+        os.makedirs(pwd, exist_ok=True)
+        ptrie = os.path.join(pwd, "trie.ndjson")
+        phs = vlib.harness(binary, ["run"] + pargs + ["--out", ptrie], timeout=3000)
+        if phs.get("nondeterministic"):
+            raise vlib.ToolError("the library behaved non-deterministically: %s" % phs["nondeterministic"][:1])
+        pviols, pdrifts, _ = judge(prop, ptrie, pwd, workers=4 if thorough else 2)
+        pnodes = vlib.load_trie(ptrie)
+        os.remove(ptrie)
+        return pname, phs, pviols, pdrifts, pnodes
+
+    from concurrent.futures import ThreadPoolExecutor
+    with ThreadPoolExecutor(max_workers=4 if thorough else 8) as ex:
+        results = list(ex.map(do_part, parts))
+    vlib.log("[time] build+model-check %.0fs, harness+judge %.0fs" % (t_mc, time.time() - t0 - t_mc))
+    groups, viols, drifts, part_nodes = {}, [], [], {}
+    hs = {"calls": 0, "panics": 0, "inapplicable": 0, "ops": {}}
+    nt_n = leaves_n = trie_n = 0
+    samples = []
+    for pname, phs, pviols, pdrifts, pnodes in results:
+        part_nodes[pname] = pnodes
+        for sig, g in group(prop, pnodes, pviols).items():
+            g["example"] = (pname, g["example"])
+            if sig in groups:
+                groups[sig]["count"] += g["count"]
+            else:
+                groups[sig] = g
+        viols += pviols
+        drifts += pdrifts
+        for k in ("calls", "panics", "inapplicable"):
+            hs[k] += phs.get(k, 0)
+        for k, v in phs.get("ops", {}).items():
+            hs["ops"][k] = hs["ops"].get(k, 0) + v
+        nt = [n["id"] for n in pnodes[1:] if nontrivial(n)]
+        leaves = [n["id"] for n in pnodes if not n["kids"] and n["id"] != 0]
+        nt_n += len(nt); leaves_n += len(leaves); trie_n += len(pnodes)
+        if len(samples) < 3 and (nt or leaves):
+            samples.append(brief_path(pnodes, nt[len(nt) // 2] if nt else leaves[0]))
+    code, nv, nk = vlib.verdict(prop, groups, lambda ex_: make_replay_fn(part_nodes[ex_[0]])(ex_[1]))
     # drift: report, never a verdict
     dfields = {}
     for nid, fields in drifts:
@@ -201,27 +241,22 @@ def run(prop, tier, quick_slices, thorough_slices, nontrivial, drive_profile="mi
             dfields[f] = dfields.get(f, 0) + 1
     if drifts:
         print("DRIFT paths=%d fields=%s (lock-step disagreement with Endpoint.tla; report only)" % (len(drifts), json.dumps(dfields, sort_keys=True)))
+    args = ["run", "--edges", "<one per slice>"] + parts[-1][1]
 
-    nt = [n["id"] for n in nodes[1:] if nontrivial(n)]
-    leaves = [n["id"] for n in nodes if not n["kids"] and n["id"] != 0]
-    samples = []
-    pick = (nt[:1] + nt[len(nt) // 2:len(nt) // 2 + 1] + leaves[-1:]) if nt else leaves[:2]
-    for nid in pick:
-        samples.append(brief_path(nodes, nid))
     vlib.write_evidence(prop, tier, "model_checking", {
         "states": states,
         "transitions": transitions,
-        "traces_validated_against_impl": len(leaves),
+        "traces_validated_against_impl": leaves_n,
         "samples": samples,
         "exhaustive": False,
         "evaluations": hs.get("calls", 0),
-        "distinct_nontrivial": len(nt),
+        "distinct_nontrivial": nt_n,
         "rule": ("TLC explores the slices %s of MC_Endpoint.tla exhaustively (all interleavings of the slice's alphabet); "
                  "each explored transition is a history of public calls replayed on the real library (at most %d per run, sampled by seed), "
                  "plus %s seeded random histories; every distinct call prefix is one trie node judged by TLC. "
                  "distinct_nontrivial = trie nodes at which %s" % (names, limit, args[args.index("--drive") + 1], extra_rule)),
         "slices": per_slice,
-        "trie_nodes": len(nodes),
+        "trie_nodes": trie_n,
         "real_calls": hs.get("calls", 0),
         "harness_ops": hs.get("ops", {}),
         "inapplicable_schedules": hs.get("inapplicable", 0),
